@@ -312,3 +312,21 @@ func TestC02Boundary(t *testing.T) {
 	defer st.Flush()
 	rapid.Check(t, c02BoundaryProp(st))
 }
+
+func TestC02Sparse(t *testing.T) {
+	st := NewStats("C02Sparse", c02Rule)
+	defer st.Flush()
+	rapid.Check(t, c02Prop(st, FamSparse))
+}
+
+func TestC02Gaps(t *testing.T) {
+	st := NewStats("C02Gaps", c02Rule)
+	defer st.Flush()
+	rapid.Check(t, c02Prop(st, FamDVGaps))
+}
+
+func TestC02Counts(t *testing.T) {
+	st := NewStats("C02Counts", c02Rule)
+	defer st.Flush()
+	rapid.Check(t, c02Prop(st, FamCounts))
+}
